@@ -1,9 +1,11 @@
 use crate::{Args, events::Log};
 pub mod c03;
+pub mod padding;
 
 pub fn run(args: &Args, log: &Log) -> Result<(), String> {
     match args.driver.as_str() {
         "c03" => c03::run(args, log),
+        "padding" => padding::run(args, log),
         d => Err(format!("unknown driver {d}")),
     }
 }
